@@ -114,6 +114,10 @@ def mutate(rnd, raw):
                             cands.append((rn, fn.rsplit(".", 1)[1]))
             if cands:
                 rn, simple = rnd.choice(cands)
+                errs = [x for x in cands if any(isinstance(f_.get("type"), dict) and f_["type"].get("type") == "error"
+                                                and f_["type"].get("name", "").rsplit(".", 1)[-1] == x[1] for f_ in x[0].get("fields", []))]
+                if errs and rnd.random() < 0.7:
+                    rn, simple = rnd.choice(errs)           # a record declared "error" is a record for this check too
                 rn["fields"].append({"name": "zz_byname", "type": ["null", simple], "default": rnd.choice([5, True, [1], 2.5])})
                 return kind, s
         if kind == "default-type" and fields:
